@@ -62,6 +62,9 @@ class CGenerator:
 
     def visit_StructRef(self, n: c_ast.StructRef) -> str:
         sref = self._parenthesize_unless_simple(n.name)
+        if isinstance(n.name, c_ast.Constant):
+            # '1.x' would lex as a floating constant followed by an identifier
+            sref = "(" + sref + ")"
         return sref + n.type + self.visit(n.field)
 
     def visit_FuncCall(self, n: c_ast.FuncCall) -> str:
